@@ -1,7 +1,9 @@
 From Coq Require Import List NArith ZArith Bool.
 Import ListNotations.
 Require Import MV.C11.Model MV.C11.Spec MV.C11.Exec MV.C11.ProofsFraming MV.C11.ProofsInv
-        MV.C11.ProofsState MV.C11.ProofsCount MV.C11.ProofsOrder MV.C11.ProofsMain.
+        MV.C11.ProofsState MV.C11.ProofsCount MV.C11.ProofsOrder MV.C11.ProofsWire MV.C11.ProofsReflect
+        MV.C11.ProofsStream MV.C11.ProofsMain.
+From Coq Require Import Permutation.
 Open Scope N_scope.
 Require Import MV.C11.Properties.
 
@@ -55,6 +57,30 @@ Check (C11_interrupted_refuted_before_fix : exists sf obs c, Forall ev_wf intr_w
     run before_intr None st0 intr_witness = Some (sf, obs) /\
     lookup 2 (clients sf) = Some c /\ torn c = true).
 Print Assumptions C11_interrupted_refuted_before_fix.
+Check (C11_zero_buffer_refuted_before_fix : forall s metas frames ws, metas <> [] \/ frames <> [] ->
+  step_wake before_zero (Some 0) s metas frames ws = None).
+Print Assumptions C11_zero_buffer_refuted_before_fix.
+Check (C11_zero_buffer_is_one_after_fix : lim_of fixed (Some 0) = 1).
+Print Assumptions C11_zero_buffer_is_one_after_fix.
+Check (C11_fields_roundtrip : forall l, Forall ok_field l -> fields (enc_fields l) = Some l).
+Print Assumptions C11_fields_roundtrip.
+Check (C11_metadata_roundtrip : forall name m,
+  decode_event (meta_body name m) = Some (DMeta (mkDMeta name (m_type m) (m_unit m) (m_desc m)))).
+Print Assumptions C11_metadata_roundtrip.
+Check (C11_metric_roundtrip : forall i secs nanos, op_ok (mi_op i) ->
+  split_frames (enc_metric i secs nanos) = ([metric_body i secs nanos], []) /\
+  decode_event (metric_body i secs nanos) =
+  Some (DMetric (mkDMetric (mi_name i) (btree_of (mi_labels i)) (fst (op_num (mi_op i))) (snd (op_num (mi_op i)))))).
+Print Assumptions C11_metric_roundtrip.
+Check (C11_stream_log_ok_reflect : forall x ML KL ML1 KL1 s,
+  s = concat (map enc (map mbody ML1 ++ map kbody KL1)) ->
+  Forall item_ok KL1 ->
+  Subseq ML1 ML -> Subseq KL1 KL ->
+  Permutation (map dm ML) (x_log_metas x) ->
+  x_metric_bodies x = map kbody KL ->
+  (x_stay x && x_full x = true -> ML1 = ML /\ KL1 = KL) ->
+  stream_log_ok x s = true).
+Print Assumptions C11_stream_log_ok_reflect.
 Check (C11_spec_ok_sound : forall c o, spec_ok c o = true ->
   o_served o = true /\ o_quiet o = true /\ Forall obs_good (o_obs o) /\
   streams_ok c (c_clients c) (o_streams o) = true).
